@@ -5,13 +5,15 @@ import sys, os, subprocess, json, re, shutil
 d = os.path.abspath(sys.argv[1]); tier = sys.argv[2] if len(sys.argv) > 2 else "quick"
 ROOT = os.path.dirname(os.path.dirname(os.path.abspath(__file__)))
 meta = json.load(open(os.path.join(d, "meta.json"))); prop = meta["property"]
-assert subprocess.run("git -C /repo status --porcelain", shell=True, capture_output=True, text=True).stdout.strip() == "", "/repo not clean"
-a = subprocess.run(["git", "-C", "/repo", "apply", os.path.join(d, "patch.diff")], capture_output=True, text=True)
+WT = "/tmp/seedwt-%d" % os.getpid()
+subprocess.run("git -C /repo worktree add -q --detach %s" % WT, shell=True, check=True)
+ENV = dict(os.environ, VERIF_REPO=WT)
+a = subprocess.run(["git", "-C", WT, "apply", os.path.join(d, "patch.diff")], capture_output=True, text=True)
 try:
     if a.returncode != 0:
         res = dict(detected=None, detail="patch does not apply: " + a.stderr[-300:])
     else:
-        r = subprocess.run([os.path.join(ROOT, "check"), prop, "--tier", tier], cwd=ROOT, capture_output=True, text=True)
+        r = subprocess.run([os.path.join(ROOT, "check"), prop, "--tier", tier], cwd=ROOT, capture_output=True, text=True, env=ENV)
         viol = [l for l in r.stdout.split("\n") if l.startswith("VIOLATION")]
         detail = []
         for v in viol[:3]:
@@ -23,8 +25,11 @@ try:
                 detail.append(dict(line=v))
         res = dict(detected=bool(viol), exit=r.returncode, violations=len(viol), detail=detail, summary=r.stderr.strip().split("\n")[-1][:300])
 finally:
-    subprocess.run("git -C /repo checkout -- . && git -C /repo clean -fdq", shell=True)
+    subprocess.run("git -C %s checkout -- . && git -C %s clean -fdq" % (WT, WT), shell=True)
 meta["check_result"] = dict(cmd=f"./check {prop} --tier {tier}", **res)
 json.dump(meta, open(os.path.join(d, "meta.json"), "w"), indent=1)
 print(os.path.basename(d), "detected" if res.get("detected") else "MISSED", str(res.get("summary", res.get("detail")))[:160])
 shutil.rmtree(os.path.join(ROOT, "replays"), ignore_errors=True)
+
+subprocess.run("git -C /repo worktree remove --force %s" % WT, shell=True)
+shutil.rmtree(os.path.join(ROOT, ".build-" + os.path.basename(WT)), ignore_errors=True)
